@@ -137,7 +137,7 @@ Inductive rd (A : Type) := ROk (a : A) (rest : bytes) | RNeedMore | RErr (code :
 Arguments ROk {A}. Arguments RNeedMore {A}. Arguments RErr {A}. Arguments RPanic {A}.
 (* error codes *)
 Definition E_INDEX := 1. Definition E_VARINT := 2. Definition E_TABLESIZE := 3.
-Definition E_HUFFMAN := 4. Definition E_ENCODING := 5. Definition E_TRUNCATED := 6. Definition E_FUEL := 99.
+Definition E_HUFFMAN := 4. Definition E_ENCODING := 5. Definition E_TRUNCATED := 6. Definition E_LATEUPDATE := 8. Definition E_FUEL := 99.
 
 (* readVarInt's loop *)
 Fixpoint varint_loop (p : bytes) (i m : Z) {struct p} : rd Z :=
@@ -229,7 +229,9 @@ Definition parse_literal (d : dyntab) (n : Z) (it : Z) (p : bytes) : rd (dyntab 
     end
   | RNeedMore => RNeedMore | RErr c => RErr c | RPanic => RPanic
   end.
-Definition parse_size_update (d : dyntab) (p : bytes) : rd (dyntab * option field) :=
+(* first = d.firstField: no header field of the current block has been processed yet (RFC 7541 4.2) *)
+Definition parse_size_update (first : bool) (d : dyntab) (p : bytes) : rd (dyntab * option field) :=
+  if negb first then RErr E_LATEUPDATE else
   match read_varint 5 p with
   | ROk size r =>
     if size >? dallowed d then RErr E_TABLESIZE
@@ -240,7 +242,7 @@ Definition parse_size_update (d : dyntab) (p : bytes) : rd (dyntab * option fiel
   | RNeedMore => RNeedMore | RErr c => RErr c | RPanic => RPanic
   end.
 (* parseHeaderFieldRepr; precondition p non-empty *)
-Definition parse_repr (d : dyntab) (p : bytes) : rd (dyntab * option field) :=
+Definition parse_repr (first : bool) (d : dyntab) (p : bytes) : rd (dyntab * option field) :=
   match p with
   | [] => RNeedMore
   | b :: _ =>
@@ -248,28 +250,31 @@ Definition parse_repr (d : dyntab) (p : bytes) : rd (dyntab * option field) :=
     else if 64 <=? b then parse_literal d 6 0 p
     else if b <? 16 then parse_literal d 4 1 p
     else if b <? 32 then parse_literal d 4 2 p
-    else parse_size_update d p
+    else parse_size_update first d p
   end.
 
 (* status: 0 = nil error, else error code; -2 = panic *)
 Definition ST_PANIC := -2.
-Record dec := mkD { ddt : dyntab; dsave : bytes }.
+Record dec := mkD { ddt : dyntab; dsave : bytes; dfirst : bool }.
 (* NewDecoder(maxDynamicTableSize) *)
-Definition new_decoder (mx : Z) : dec := mkD (empty_dt mx mx) [].
+Definition new_decoder (mx : Z) : dec := mkD (empty_dt mx mx) [] true.
 
 (* the for len(d.buf) > 0 loop of Write; emitted fields are accumulated in reverse *)
-Fixpoint parse_loop (fuel : nat) (d : dyntab) (buf : bytes) (acc : list field) : dec * list field * Z :=
+Definition next_first (first : bool) (o : option field) : bool :=
+  match o with Some _ => false | None => first end.      (* d.firstField = false after a header field *)
+Fixpoint parse_loop (fuel : nat) (first : bool) (d : dyntab) (buf : bytes) (acc : list field) : dec * list field * Z :=
   match buf with
-  | [] => (mkD d [], acc, 0)
+  | [] => (mkD d [] first, acc, 0)
   | _ =>
     match fuel with
-    | O => (mkD d [], acc, E_FUEL)
+    | O => (mkD d [] first, acc, E_FUEL)
     | S f =>
-      match parse_repr d buf with
-      | ROk (d', o) rest => parse_loop f d' rest (match o with Some x => x :: acc | None => acc end)
-      | RNeedMore => (mkD d buf, acc, 0)                (* saveBuf.Write(d.buf) *)
-      | RErr c => (mkD d [], acc, c)
-      | RPanic => (mkD d [], acc, ST_PANIC)
+      match parse_repr first d buf with
+      | ROk (d', o) rest =>
+        parse_loop f (next_first first o) d' rest (match o with Some x => x :: acc | None => acc end)
+      | RNeedMore => (mkD d buf first, acc, 0)                (* saveBuf.Write(d.buf) *)
+      | RErr c => (mkD d [] first, acc, c)
+      | RPanic => (mkD d [] first, acc, ST_PANIC)
       end
     end
   end.
@@ -278,11 +283,11 @@ Definition dec_write (d : dec) (p : bytes) : dec * list field * Z :=
   match p with
   | [] => (d, [], 0)
   | _ => let buf := dsave d ++ p in
-         let '(d', acc, st) := parse_loop (S (length buf)) (ddt d) buf [] in (d', rev acc, st)
+         let '(d', acc, st) := parse_loop (S (length buf)) (dfirst d) (ddt d) buf [] in (d', rev acc, st)
   end.
-(* Decoder.Close *)
+(* Decoder.Close: a complete block ends, the next size update is allowed again *)
 Definition dec_close (d : dec) : dec * Z :=
-  match dsave d with [] => (d, 0) | _ => (mkD (ddt d) [], E_TRUNCATED) end.
+  match dsave d with [] => (mkD (ddt d) [] true, 0) | _ => (mkD (ddt d) [] (dfirst d), E_TRUNCATED) end.
 
 (* feed chunks until the first error, then Close: all emitted fields, final status, final state *)
 Fixpoint dec_run (d : dec) (chunks : list bytes) (acc : list field) : dec * list field * Z :=
@@ -347,7 +352,7 @@ Definition rfc_name (t : rtab) (idx : Z) (p : bytes) : rfc bytes :=
   if idx =? 0 then rfc_string p
   else match rfc_lookup (rents t) idx with Some (n, _) => Good n p | None => Bad end.
 (* 6: one representation *)
-Definition rfc_repr (allowed : Z) (t : rtab) (p : bytes) : rfc (rtab * option field) :=
+Definition rfc_repr (allowed : Z) (first : bool) (t : rtab) (p : bytes) : rfc (rtab * option field) :=
   match p with
   | [] => Bad
   | b :: _ =>
@@ -359,7 +364,9 @@ Definition rfc_repr (allowed : Z) (t : rtab) (p : bytes) : rfc (rtab * option fi
                     end
       | Bad => Bad
       end
-    else if (32 <=? b) && (b <? 64) then                (* 6.3 size update: new max <= SETTINGS value *)
+    else if (32 <=? b) && (b <? 64) then                (* 6.3 size update: only before the first field of
+                                                           the block (4.2); new max <= SETTINGS value *)
+      if negb first then Bad else
       match rfc_int 5 p with
       | Good v r => if v <=? allowed then Good (mkR (rfc_fit (rents t) v) v, None) r else Bad
       | Bad => Bad
@@ -381,14 +388,14 @@ Definition rfc_repr (allowed : Z) (t : rtab) (p : bytes) : rfc (rtab * option fi
       | Bad => Bad
       end
   end.
-Fixpoint rfc_block (fuel : nat) (allowed : Z) (t : rtab) (p : bytes) : option (rtab * list field) :=
+Fixpoint rfc_block (fuel : nat) (allowed : Z) (first : bool) (t : rtab) (p : bytes) : option (rtab * list field) :=
   match p with
   | [] => Some (t, [])
   | _ => match fuel with
          | O => None
-         | S f => match rfc_repr allowed t p with
+         | S f => match rfc_repr allowed first t p with
                   | Good (t', o) rest =>
-                    match rfc_block f allowed t' rest with
+                    match rfc_block f allowed (match o with Some _ => false | None => first end) t' rest with
                     | Some (t'', fs) => Some (t'', match o with Some x => x :: fs | None => fs end)
                     | None => None
                     end
@@ -398,7 +405,7 @@ Fixpoint rfc_block (fuel : nat) (allowed : Z) (t : rtab) (p : bytes) : option (r
   end.
 (* decode a whole header block with a fresh table of (initial and allowed) maximum size mx *)
 Definition rfc_decode (mx : Z) (p : bytes) : option (rtab * list field) :=
-  rfc_block (S (length p)) mx (mkR [] mx) p.
+  rfc_block (S (length p)) mx true (mkR [] mx) p.
 
 Definition wf_field (f : field) : bool := wf_bytes (fname f) && wf_bytes (fvalue f).
 Definition field_eqb (a b : field) : bool :=
